@@ -503,7 +503,7 @@ def _explore_cfg(arg):
     import time
     # wall-clock guard per configuration: a cap is reported as a cap
     st = explore.dfs(make_runner(cfg), bound, max_execs=cap,
-                     deadline=time.time() + 420)
+                     deadline=time.time() + 120)
     return st.as_dict()
 
 
